@@ -9,6 +9,8 @@ ALL_DCTORS = ["svt_fifo_dctor", "svt_circular_buffer_dctor", "svt_muxing_queue_d
 # destructors are called through pobj->dctor: the verifier case-splits over every address-taken function of that
 # type; the bodies that this unit's constructor can never install are removed (a call that reached one of them
 # would do nothing and show up as a leak)
+# muxing queue: real callee constructors; system resource: the muxing-queue constructor (proved by its own unit) is
+# replaced by its resource-accounting contract stub (with the real one inlined the solver does not finish in 15 min)
 STUBS = {"U16.muxing_queue": {},
          "U16.system_resource": {"svt_muxing_queue_ctor": "stub_mq_ctor",
                                  "svt_muxing_queue_object_push_back": "stub_mq_push_back"}}
@@ -39,7 +41,8 @@ KEEP_DCTORS = {"U16.fifo": ["svt_fifo_dctor"], "U16.circular_buffer": ["svt_circ
                "U16.muxing_queue": ["svt_fifo_dctor", "svt_circular_buffer_dctor", "svt_muxing_queue_dctor"],
                "U16.system_resource": ["svt_object_wrapper_dctor", "svt_system_resource_dctor", "obj_dctor"]}
 UNITS = []
-THOROUGH = {"U16.muxing_queue", "U16.system_resource"}
+THOROUGH = set()
+CALLOC_MODEL = {"U16.muxing_queue", "U16.system_resource"}
 for uid, entry, defs, fns, unwind, bound, kind in [
     ("U16.fifo", "h_fifo", ["U16_SRM", "MQ_MAXP=2", "RES_MAXN=1"], ["svt_fifo_ctor", "svt_fifo_dctor"], 3, "", "proved"),
     ("U16.circular_buffer", "h_cb", ["U16_SRM", "MQ_MAXP=2", "RES_MAXN=1"],
@@ -55,11 +58,11 @@ for uid, entry, defs, fns, unwind, bound, kind in [
     ("U16.thread_array", "h_threads", ["U16_THREADS"], ["EB_CREATE_THREAD_ARRAY", "EB_DESTROY_THREAD_ARRAY"], 5,
      "<= 3 threads per stage", "bounded"),
 ]:
-    UNITS.append(Unit(uid=uid, prop="C16", harness=H, entry=entry, functions=fns, mode="plain", defines=defs,
+    UNITS.append(Unit(uid=uid, prop="C16", harness=H, entry=entry, functions=fns, mode="plain", defines=defs + (["U16_CALLOC_MODEL"] if uid in CALLOC_MODEL else []),
                       malloc_may_fail=True, cbmc_flags=LEAK, unwind=unwind, canaries=2, min_obligations=20,
                       cover_functions=[], kind=kind, mem_gb=20, tier=("thorough" if uid in THOROUGH else "quick"),
-                      unwindset=(["svt_muxing_queue_dctor:1", "svt_system_resource_dctor:1", "svt_object_wrapper_dctor:1"] if uid in THOROUGH else []), replace_calls=STUBS.get(uid, {}), 
-                      remove_bodies=[d for d in ALL_DCTORS if uid in KEEP_DCTORS and d not in KEEP_DCTORS[uid]], bound=bound, trusted=TR, timeout=(2400 if uid in THOROUGH else 300),
+                      unwindset=(["svt_muxing_queue_dctor:1", "svt_system_resource_dctor:1", "svt_object_wrapper_dctor:1"] if uid in CALLOC_MODEL else []), replace_calls=STUBS.get(uid, {}), restrict_fp=RESTRICT.get(uid), 
+                      remove_bodies=[d for d in ALL_DCTORS if uid in KEEP_DCTORS and d not in KEEP_DCTORS[uid]], bound=bound, trusted=TR, timeout=600,
                       what="every subset of this constructor's allocations / OS-object creations may fail: error code "
                            "returned, nothing leaked, nothing freed twice, nothing NULL dereferenced; on success the "
                            "object invariant holds and EB_DELETE releases everything"))
